@@ -132,11 +132,24 @@ class Gen:
                     s = s[:p] + motif + s[p + len(motif):]
         return s
 
-    def pair(self, sc, tid):
-        """-> (records as 4-tuples, nm, description of the generated case)"""
+    def boundary_lengths(self, sc, m):
+        """every length on / next to a slice boundary of the table at which mate m can still carry its barcode pieces"""
+        cuts = set(sc['cuts']) | {sc['ins'][m - 1], sc['need'][m - 1]}
+        return sorted({c + d for c in cuts for d in (-1, 0, 1) if c + d >= max(0, sc['need'][m - 1])})
+
+    def pair(self, sc, tid, i=None):
+        """-> (records as 4-tuples, nm, description of the generated case); the first pairs of a scenario (i = 0, 1, ..)
+        walk deterministically through the boundary lengths of mate 1, then of mate 2"""
         r = self.rng
         nm = r.choice(sorted(sc['mates']))
-        if r.random() < 0.04:
+        b1, b2 = self.boundary_lengths(sc, 1), self.boundary_lengths(sc, 2)
+        forced = [None, None]
+        if i is not None and i < len(b1):
+            forced[0] = b1[i]
+        elif i is not None and i < len(b1) + len(b2):
+            forced[1] = b2[i - len(b1)]
+            nm = max(sc['mates'])
+        elif r.random() < 0.04:
             nm = 3 - nm if nm in (1, 2) else nm          # a record count the table does not list (expected: not accepted)
         wl = self.bp.barcodes.get(sc['wl'], {}) if sc['wl'] else {}
         ctx = {}
@@ -151,14 +164,14 @@ class Gen:
                     for k2, v2 in (self.bp.barcodes.get('celseq2') or {}).items():
                         if v2 == idx:
                             ctx['cs2'] = k2
-                if r.random() < 0.2:                       # one mismatch: the raw tag must keep the read's bases
+                if r.random() < 0.2 and forced == [None, None]:   # one mismatch: the raw tag must keep the read's bases
                     p = r.randrange(len(barcode))
                     barcode = barcode[:p] + r.choice([c for c in 'ACGTN' if c != barcode[p]]) + barcode[p + 1:]
                     desc['exact'] = 0
             else:
                 barcode = self.bases(blen, 0)
                 desc['exact'] = 0
-        lens = [self.length(sc, 1), self.length(sc, 2)]
+        lens = [self.length(sc, 1) if forced[0] is None else forced[0], self.length(sc, 2) if forced[1] is None else forced[1]]
         recs = []
         index = r.choice(self.indices)
         stale = self.stale_header(sc, tid, index) if r.random() < 0.25 else None
@@ -288,9 +301,9 @@ def main():
                 key = '%s/%d/%d' % (st, sc['branch'], inj)
                 stats[key] = {'s': st, 'branch': sc['branch'], 'inj': inj, 'wl': sc['wl'], 'wl_n': shipped, 'attempts': 0, 'accepted': 0}
                 n = n_per if (shipped != 0) else max(5, n_per // 10)
-                for _ in range(n):
+                for i in range(n):
                     tid += 1
-                    recs, nm, desc = gen.pair(sc, tid)
+                    recs, nm, desc = gen.pair(sc, tid, i)
                     obs = observe(strategies[st], recs, FastqRecord, NonMultiplexable)
                     stats[key]['attempts'] += 1
                     stats[key]['accepted'] += 1 if obs['acc'] else 0
